@@ -6,7 +6,7 @@ import CV.Proofs.AEPrim
 namespace CV.AE
 open AMap
 
-variable {Rs Rc Ps Pc : Id → Prop}
+variable {T : Prop} {Rs Rc Ps Pc : Id → Prop}
 
 /-! ### dropping local records -/
 
@@ -21,7 +21,8 @@ theorem dropSvc_chks (l : Local) (id k : Id) :
     (dropSvc l id).chks.get? k = match l.chks.get? k with
       | some e => if pruneKeep id k e then some e else none
       | none => none := by
-  simp [dropSvc, get?_filterVis]
+  simp only [dropSvc, get?_filterVis]
+  cases l.chks.get? k <;> rfl
 
 theorem pruneKeep_false {id k : Id} {e : Ent ChkDef} (h : pruneKeep id k e = false) :
     ∃ d tok loc b, e = .ent d tok loc b true ∧ d.sid = id := by
@@ -43,7 +44,7 @@ theorem dropSvc_chks_sub (l : Local) (id k : Id) (e : Ent ChkDef) (h : (dropSvc 
 
 theorem GInv_dropSvc {l : Local} {c : Cat} (id : Id) (hid : id ≠ "") (hl : liveSvc l id = none)
     (hc1 : c.svcs.get? id = none) (hc2 : ∀ k rc, c.chks.get? k = some rc → rc.sid ≠ id)
-    (g : GInv Rs Rc Ps Pc l c) : GInv Rs Rc Ps Pc (dropSvc l id) c := by
+    (g : GInv T Rs Rc Ps Pc l c) : GInv T Rs Rc Ps Pc (dropSvc l id) c := by
   obtain ⟨n1, n2, n3, n4⟩ := g.nek
   have hls : ∀ i, liveSvc (dropSvc l id) i = liveSvc l i := by
     intro i; unfold liveSvc; rw [dropSvc_svcs]; split
@@ -64,8 +65,8 @@ theorem GInv_dropSvc {l : Local} {c : Cat} (id : Id) (hid : id ≠ "") (hl : liv
   · intro k d h1 h2; rw [hlc] at h1; rw [hls]; exact g.lwf k d h1 h2
   · rw [dropSvc_svcs]; split <;> simp_all
   · rw [dropSvc_chks, n2]
-  · intro k d tok loc b rc h1 h2 h3
-    exact g.nrb k d tok loc b rc (dropSvc_chks_sub l id k _ h1) h2 h3
+  · intro ht k d tok loc b rc h1 h2 h3
+    exact g.nrb ht k d tok loc b rc (dropSvc_chks_sub l id k _ h1) h2 h3
   · intro i d tok loc h1
     rw [dropSvc_svcs] at h1; split at h1
     · cases h1
@@ -76,10 +77,10 @@ theorem GInv_dropSvc {l : Local} {c : Cat} (id : Id) (hid : id ≠ "") (hl : liv
     rw [dropSvc_svcs] at h1; split at h1
     · rename_i e; subst e; exact Or.inl hc1
     · exact g.tgt.1 i h1
-  · intro k h1
+  · intro ht k h1
     rw [dropSvc_chks] at h1
     cases hk : l.chks.get? k with
-    | none => exact g.tgt.2 k hk
+    | none => exact g.tgt.2 ht k hk
     | some e =>
       rw [hk] at h1; simp only at h1
       cases hp : pruneKeep id k e with
@@ -90,13 +91,13 @@ theorem GInv_dropSvc {l : Local} {c : Cat} (id : Id) (hid : id ≠ "") (hl : liv
         cases hck : c.chks.get? k with
         | none => rfl
         | some rc =>
-          have := g.nrb k d tok loc b rc hk (by rw [hsid]; exact hid) hck
+          have := g.nrb ht k d tok loc b rc hk (by rw [hsid]; exact hid) hck
           exact absurd (this.trans hsid) (hc2 k rc hck)
 
 def dropChk (l : Local) (k : Id) : Local := { l with chks := l.chks.erase k }
 
 theorem GInv_dropChk {l : Local} {c : Cat} (k : Id) (hl : liveChk l k = none)
-    (hc : c.chks.get? k = none) (g : GInv Rs Rc Ps Pc l c) : GInv Rs Rc Ps Pc (dropChk l k) c := by
+    (hc : c.chks.get? k = none) (g : GInv T Rs Rc Ps Pc l c) : GInv T Rs Rc Ps Pc (dropChk l k) c := by
   obtain ⟨n1, n2, n3, n4⟩ := g.nek
   have hg : ∀ k', (dropChk l k).chks.get? k' = if k = k' then none else l.chks.get? k' := by
     intro k'; simp [dropChk, get?_erase]
@@ -107,18 +108,18 @@ theorem GInv_dropChk {l : Local} {c : Cat} (k : Id) (hl : liveChk l k = none)
   refine ⟨?_, g.cwf, ⟨n1, ?_, n3, n4⟩, ?_, ⟨g.snd.1, ?_⟩, ⟨g.tgt.1, ?_⟩⟩
   · intro k' d h1 h2; rw [hlc] at h1; exact g.lwf k' d h1 h2
   · rw [hg]; split <;> simp_all
-  · intro k' d tok loc b rc h1 h2 h3
+  · intro ht k' d tok loc b rc h1 h2 h3
     rw [hg] at h1; split at h1
     · cases h1
-    · exact g.nrb k' d tok loc b rc h1 h2 h3
+    · exact g.nrb ht k' d tok loc b rc h1 h2 h3
   · intro k' d tok loc h1
     rw [hg] at h1; split at h1
     · cases h1
     · exact g.snd.2 k' d tok loc h1
-  · intro k' h1
+  · intro ht k' h1
     rw [hg] at h1; split at h1
     · rename_i e; subst e; exact Or.inl hc
-    · exact g.tgt.2 k' h1
+    · exact g.tgt.2 ht k' h1
 
 /-! ### the piggy-back list -/
 
@@ -161,16 +162,16 @@ theorem syncService_GInv (cfg : Cfg) (f : Faults) (id : Id) (d : SvcDef) (tok : 
     (he : s.l.svcs.get? id = some (.ent d tok loc false false))
     (hRs : f.svc id = .denied → Rs id)
     (hRc : ∀ k dk, liveChk s.l k = some dk → dk.sid = id → f.svc id = .denied → Rc k)
-    (g : GInv Rs Rc Ps Pc s.l s.c) :
-    GInv Rs Rc Ps Pc (syncService cfg f id d tok loc s).l (syncService cfg f id d tok loc s).c := by
+    (g : GInv T Rs Rc Ps Pc s.l s.c) :
+    GInv T Rs Rc Ps Pc (syncService cfg f id d tok loc s).l (syncService cfg f id d tok loc s).c := by
   have hpg : ∀ k dk, (k, dk) ∈ piggy cfg s.l id (effTok cfg tok loc) →
       ∃ t lo, s.l.chks.get? k = some (.ent dk t lo false false) ∧ dk.sid = id := by
     intro k dk h; obtain ⟨t, lo, h1, h2, _⟩ := piggy_mem h; exact ⟨t, lo, h1, h2⟩
   -- the marks, given a catalog `c'` that justifies them (or a refusal)
-  have marks : ∀ c', GInv Rs Rc Ps Pc s.l c' →
+  have marks : ∀ c', GInv T Rs Rc Ps Pc s.l c' →
       (Rs id ∨ c'.svcs.get? id = some d) →
       (∀ k dk, (k, dk) ∈ piggy cfg s.l id (effTok cfg tok loc) → Rc k ∨ ∃ rc, c'.chks.get? k = some rc ∧ rc.core = dk.core) →
-      GInv Rs Rc Ps Pc (markChks (markSvc s.l id) ((piggy cfg s.l id (effTok cfg tok loc)).map (·.1))) c' := by
+      GInv T Rs Rc Ps Pc (markChks (markSvc s.l id) ((piggy cfg s.l id (effTok cfg tok loc)).map (·.1))) c' := by
     intro c' g' hjs hjc
     apply GInv_flags (l := s.l) _ _ g'
     · intro i
@@ -209,7 +210,7 @@ theorem syncService_GInv (cfg : Cfg) (f : Faults) (id : Id) (d : SvcDef) (tok : 
     split
     · exact g
     · rename_i c' hreg
-      have g' : GInv Rs Rc Ps Pc s.l c' := by
+      have g' : GInv T Rs Rc Ps Pc s.l c' := by
         apply GInv_register hreg _ _ g
         · intro id' d' h; simp only [Option.some.injEq, Prod.mk.injEq] at h
           obtain ⟨rfl, rfl⟩ := h; exact ⟨tok, loc, false, he⟩
@@ -254,8 +255,8 @@ theorem cascade_done {c : Cat} (hw : CatWF c) (id : Id) (hid : id ≠ "") :
 theorem deleteService_GInv (f : Faults) (id : Id) (s : St) (e : Ent SvcDef)
     (he : s.l.svcs.get? id = some e) (hdel : e.deleted = true)
     (hRs : f.svc id = .denied → Rs id)
-    (g : GInv Rs Rc Ps Pc s.l s.c) :
-    GInv Rs Rc Ps Pc (deleteService f id s).l (deleteService f id s).c := by
+    (g : GInv T Rs Rc Ps Pc s.l s.c) :
+    GInv T Rs Rc Ps Pc (deleteService f id s).l (deleteService f id s).c := by
   have hlive : liveSvc s.l id = none := by simp [liveSvc, he, live?_deleted e hdel]
   unfold deleteService
   split
@@ -281,8 +282,8 @@ theorem deleteService_GInv (f : Faults) (id : Id) (s : St) (e : Ent SvcDef)
 theorem svcStep_GInv (cfg : Cfg) (f : Faults) (s : St) (id : Id)
     (hRs : f.svc id = .denied → Rs id)
     (hRc : ∀ k dk, liveChk s.l k = some dk → dk.sid = id → f.svc id = .denied → Rc k)
-    (g : GInv Rs Rc Ps Pc s.l s.c) :
-    GInv Rs Rc Ps Pc (svcStep cfg f s id).l (svcStep cfg f s id).c := by
+    (g : GInv T Rs Rc Ps Pc s.l s.c) :
+    GInv T Rs Rc Ps Pc (svcStep cfg f s id).l (svcStep cfg f s id).c := by
   unfold svcStep
   split
   · exact g
@@ -296,10 +297,10 @@ theorem svcStep_GInv (cfg : Cfg) (f : Faults) (s : St) (id : Id)
 theorem syncCheck_GInv (cfg : Cfg) (f : Faults) (k : Id) (d : ChkDef) (tok : String) (loc : Bool) (s : St)
     (he : s.l.chks.get? k = some (.ent d tok loc false false))
     (hRc : f.chk k = .denied → Rc k)
-    (g : GInv Rs Rc Ps Pc s.l s.c) :
-    GInv Rs Rc Ps Pc (syncCheck cfg f k d s).l (syncCheck cfg f k d s).c := by
-  have mark : ∀ c', GInv Rs Rc Ps Pc s.l c' → (Rc k ∨ ∃ rc, c'.chks.get? k = some rc ∧ rc.core = d.core) →
-      GInv Rs Rc Ps Pc (markChk s.l k) c' := by
+    (g : GInv T Rs Rc Ps Pc s.l s.c) :
+    GInv T Rs Rc Ps Pc (syncCheck cfg f k d s).l (syncCheck cfg f k d s).c := by
+  have mark : ∀ c', GInv T Rs Rc Ps Pc s.l c' → (Rc k ∨ ∃ rc, c'.chks.get? k = some rc ∧ rc.core = d.core) →
+      GInv T Rs Rc Ps Pc (markChk s.l k) c' := by
     intro c' g' hj
     apply GInv_flags (l := s.l) _ _ g'
     · intro i; exact Or.inl rfl
@@ -314,7 +315,7 @@ theorem syncCheck_GInv (cfg : Cfg) (f : Faults) (k : Id) (d : ChkDef) (tok : Str
       · exact Or.inl rfl
   have hreg : ∀ c' r, s.c.register r = some c' → r.chks = [(k, d)] →
       (∀ id' d', r.svc = some (id', d') → ∃ tok loc b, s.l.svcs.get? id' = some (.ent d' tok loc b false)) →
-      GInv Rs Rc Ps Pc s.l c' ∧ ∃ rc, c'.chks.get? k = some rc ∧ rc.core = d.core := by
+      GInv T Rs Rc Ps Pc s.l c' ∧ ∃ rc, c'.chks.get? k = some rc ∧ rc.core = d.core := by
     intro c' r h hr hsv
     refine ⟨GInv_register h hsv ?_ g, ?_⟩
     · intro k' d' hm; rw [hr] at hm; simp at hm; obtain ⟨rfl, rfl⟩ := hm; exact ⟨tok, loc, false, he⟩
@@ -322,10 +323,9 @@ theorem syncCheck_GInv (cfg : Cfg) (f : Faults) (k : Id) (d : ChkDef) (tok : Str
       obtain ⟨d', rc, m1, m2, m3, _⟩ := s3 k ⟨d, by rw [hr]; simp⟩
       rw [hr] at m1; simp at m1; subst m1
       exact ⟨rc, m2, m3⟩
-  have hsvc : ∀ id' d', (match s.l.svcs.get? d.sid with
-      | some (.ent sd _ _ _ false) => some (d.sid, sd)
-      | _ => none) = some (id', d') → ∃ tok loc b, s.l.svcs.get? id' = some (.ent d' tok loc b false) := by
+  have hsvc : ∀ id' d', checkSvc s.l d.sid = some (id', d') → ∃ tok loc b, s.l.svcs.get? id' = some (.ent d' tok loc b false) := by
     intro id' d' h
+    unfold checkSvc at h
     split at h
     · rename_i sd t lo b hs
       simp only [Option.some.injEq, Prod.mk.injEq] at h
@@ -355,8 +355,8 @@ theorem syncCheck_GInv (cfg : Cfg) (f : Faults) (k : Id) (d : ChkDef) (tok : Str
 theorem deleteCheck_GInv (f : Faults) (k : Id) (s : St) (e : Ent ChkDef)
     (he : s.l.chks.get? k = some e) (hdel : e.deleted = true)
     (hRc : f.chk k = .denied → Rc k)
-    (g : GInv Rs Rc Ps Pc s.l s.c) :
-    GInv Rs Rc Ps Pc (deleteCheck f k s).l (deleteCheck f k s).c := by
+    (g : GInv T Rs Rc Ps Pc s.l s.c) :
+    GInv T Rs Rc Ps Pc (deleteCheck f k s).l (deleteCheck f k s).c := by
   have hlive : liveChk s.l k = none := by simp [liveChk, he, live?_deleted e hdel]
   unfold deleteCheck
   split
@@ -379,8 +379,8 @@ theorem deleteCheck_GInv (f : Faults) (k : Id) (s : St) (e : Ent ChkDef)
 
 theorem chkStep_GInv (cfg : Cfg) (f : Faults) (s : St) (k : Id)
     (hRc : f.chk k = .denied → Rc k)
-    (g : GInv Rs Rc Ps Pc s.l s.c) :
-    GInv Rs Rc Ps Pc (chkStep cfg f s k).l (chkStep cfg f s k).c := by
+    (g : GInv T Rs Rc Ps Pc s.l s.c) :
+    GInv T Rs Rc Ps Pc (chkStep cfg f s k).l (chkStep cfg f s k).c := by
   unfold chkStep
   split
   · exact g
